@@ -66,7 +66,7 @@ def _shut_at(h):
 def mon_C01(h):
     bad = []
     cur = _defs_at(h)
-    prev = EMPTY
+    prev = h.get("snap0") or EMPTY     # the state before the first event: jobs restored from a preloaded store are there
     for k, st in enumerate(h["steps"]):
         sn = st["snap"]
         pipes = {j["pipe"] for j in sn["jobs"]}
@@ -116,7 +116,7 @@ def mon_C05(h):
     cur = _defs_at(h)
     reloaded = _reload_seen(h)
     shut = _shut_at(h)
-    prev = EMPTY
+    prev = h.get("snap0") or EMPTY     # the state before the first event: jobs restored from a preloaded store are there
     for k, st in enumerate(h["steps"]):
         sn, ev = st["snap"], st["ev"]
         if ev["t"] == "schedule":
@@ -172,7 +172,7 @@ def mon_C05(h):
 def mon_C06(h):
     bad = []
     reloaded = _reload_seen(h)
-    prev = EMPTY
+    prev = h.get("snap0") or EMPTY     # the state before the first event: jobs restored from a preloaded store are there
     for k, st in enumerate(h["steps"]):
         sn = st["snap"]
         if not reloaded[k + 1]:
@@ -222,7 +222,7 @@ def mon_C03(h):
 def mon_C07(h):
     bad = []
     clock, created = 0, {}
-    prev = EMPTY
+    prev = h.get("snap0") or EMPTY     # the state before the first event: jobs restored from a preloaded store are there
     dead = set()
     for k, st in enumerate(h["steps"]):
         sn, ev = st["snap"], st["ev"]
@@ -248,7 +248,7 @@ def mon_C07(h):
 
 def mon_C04(h):
     bad = []
-    prev = EMPTY
+    prev = h.get("snap0") or EMPTY     # the state before the first event: jobs restored from a preloaded store are there
     acked = {}     # job id -> step of an acknowledged cancel while unfinished
     for k, st in enumerate(h["steps"]):
         sn, ev = st["snap"], st["ev"]
@@ -313,7 +313,7 @@ def _ancestors_failed(tasks, failed):
 def mon_C08(h):
     bad = []
     cur = _defs_at(h)
-    prev = EMPTY
+    prev = h.get("snap0") or EMPTY     # the state before the first event: jobs restored from a preloaded store are there
     failed = {}      # job -> set of task names that failed (not allow_failure)
     for k, st in enumerate(h["steps"]):
         sn, ev = st["snap"], st["ev"]
@@ -362,7 +362,7 @@ def mon_C08(h):
 def mon_C02(h):
     bad = []
     pre_ids = {p["id"] for p in (h.get("pre") or [])}     # jobs of an earlier process: their tasks ran there
-    prev = EMPTY
+    prev = h.get("snap0") or EMPTY     # the state before the first event: jobs restored from a preloaded store are there
     began = {}       # (job, task) -> count of real begins
     ended_ok = {}    # (job, task) -> True if ended ok / fail-allowed
     for k, st in enumerate(h["steps"]):
@@ -433,6 +433,7 @@ def _acyclic(tasks):
 
 def mon_C15(h):
     bad = []
+    pre_ids = {p["id"] for p in (h.get("pre") or [])}
     cur = _defs_at(h)
     shut = _shut_at(h)
     accepted = set()
@@ -460,11 +461,12 @@ def mon_C15(h):
         for j in sn["jobs"]:
             if not j.get("time_ok", True):
                 bad.append((k, "job %d: timestamps out of order" % j["id"]))
-            if _acyclic(j["tasks"]) and not _topo_ok(j["tasks"]):
+            # jobs restored from a preloaded store keep the task order of the store file the harness generated
+            if j["id"] not in pre_ids and _acyclic(j["tasks"]) and not _topo_ok(j["tasks"]):
                 bad.append((k, "job %d: a task is listed before a task it depends on" % j["id"]))
             key = repr(sorted((t["name"], tuple(t["deps"])) for t in j["tasks"]))
             order = [t["name"] for t in j["tasks"]]
-            if orders.setdefault(key, order) != order:
+            if j["id"] not in pre_ids and orders.setdefault(key, order) != order:
                 bad.append((k, "job %d: task order %s differs from %s for the same definition" % (j["id"], order, orders[key])))
     return bad
 
@@ -473,7 +475,7 @@ def mon_C16(h):
     bad = []
     cur = _defs_at(h)
     snapdef = {}
-    prev = EMPTY
+    prev = h.get("snap0") or EMPTY     # the state before the first event: jobs restored from a preloaded store are there
     for k, st in enumerate(h["steps"]):
         sn, ev = st["snap"], st["ev"]
         if ev["t"] == "schedule" and st["res"].startswith("job:"):
@@ -621,7 +623,7 @@ def mon_C10(h):
 def mon_C11(h):
     bad = []
     shut = _shut_at(h)
-    prev = EMPTY
+    prev = h.get("snap0") or EMPTY     # the state before the first event: jobs restored from a preloaded store are there
     forced = False
     for k, st in enumerate(h["steps"]):
         sn, ev = st["snap"], st["ev"]
